@@ -24,6 +24,8 @@ mod groups;
 mod pairings;
 mod u256;
 mod u512;
+#[cfg(john_yu_sm9_core_verif)]
+pub mod verif_hooks;
 
 use alloc::fmt::Debug;
 use core::ops::{Add, AddAssign, Mul, MulAssign, Neg, Sub, SubAssign};
